@@ -47,12 +47,23 @@ func C15(c *Ctx) int {
 	files, _ := filepath.Glob(RepoRoot() + "/testdata/*.bpmn")
 	more, _ := filepath.Glob(RepoRoot() + "/examples/*/*.bpmn")
 	files = append(files, more...)
+	// a parsed model is a value of its own: parsing, serialising and re-parsing OTHER documents
+	// (with other or no expression / type languages) afterwards does not change it
+	type kept struct {
+		name  string
+		defs  *schema.Definitions
+		print string
+	}
+	var held []kept
 	for _, f := range files {
 		b, err := os.ReadFile(f)
 		if err != nil {
 			continue
 		}
 		defs, err := schema.Parse(b)
+		if err == nil && len(held) < 12 {
+			held = append(held, kept{filepath.Base(f), defs, alpha.Print(defs)})
+		}
 		if err != nil {
 			c.Reject(fs, Rejection{Prop: "C15", Tags: []string{"bundled", filepath.Base(f)}, Ev: "parse", Detail: err.Error()}, map[string]any{"file": f})
 			continue
@@ -62,6 +73,13 @@ func C15(c *Ctx) int {
 		if !rec.Ok {
 			c.Reject(fs, Rejection{Prop: "C15", Tags: []string{"bundled", filepath.Base(f)}, Ev: "roundtrip", Detail: filepath.Base(f) + ": " + rec.Kind},
 				map[string]any{"file": f, "differences": rec.Kind})
+		}
+	}
+	for _, k := range held {
+		c.Evaluations++
+		if now := alpha.Print(k.defs); now != k.print {
+			c.Reject(fs, Rejection{Prop: "C15", Tags: []string{"bundled", k.name}, Ev: "roundtrip", Detail: k.name + ": the parsed model changed while other documents were parsed and serialised: " + alpha.FirstDiff(k.print, now)},
+				map[string]any{"file": k.name})
 		}
 	}
 	// (3) attribute sensitivity: every boolean / numeric attribute (and plain text attribute) of the
